@@ -340,6 +340,36 @@ def fn_history(spec, rec):
             if len(gone) > 1:
                 removed_with_dependents = True
             model[:] = [m for m in model if m["name"] not in gone]
+        elif kind == "reorder":
+            # the listing order of attributes is free: a derived attribute may end up in front of its inputs
+            if len(model) < 2:
+                continue
+            i, j = op[1] % len(model), op[2] % len(model)
+            if i == j:
+                continue
+            model[i], model[j] = model[j], model[i]
+            order = [c for c in data.components if c in data.coordinate_components] + [m["cid"] for m in model]
+            data.reorder_components(order)
+            rec.label("reordered")
+        elif kind == "redefine":
+            # a derived attribute is given a new definition under its existing identifier (it keeps its position), possibly in
+            # terms of an attribute listed after it
+            derived = [m for m in model if m["kind"] == "derived"]
+            if not derived:
+                continue
+            target = derived[op[1] % len(derived)]
+
+            def depends_on(m, name, seen=()):
+                return any(d == name or (d not in seen and depends_on(find(d), name, seen + (d,))) for d in m["deps"])
+            cands = [m for m in model + [pix] if m is not target and not depends_on(m, target["name"])]
+            if not cands:
+                continue
+            src = cands[op[2] % len(cands)]
+            kk = float(op[1] % 3)
+            data.add_component(src["cid"] * 2 + kk, target["cid"])
+            target["deps"] = [src["name"]]
+            target["k"] = kk
+            rec.label("redefined")
         elif kind == "update_id":
             sources = model + [pix]
             target = sources[op[1] % len(sources)]
@@ -437,7 +467,7 @@ def parsed_cases(draw):
 idx = st.integers(0, 6)
 hist_op = st.one_of(st.tuples(st.just("stored"), idx), st.tuples(st.just("derived"), idx, idx, st.booleans()),
                     st.tuples(st.just("derived"), idx, idx, st.booleans()), st.tuples(st.just("remove"), idx),
-                    st.tuples(st.just("update_id"), idx)).map(list)
+                    st.tuples(st.just("update_id"), idx), st.tuples(st.just("reorder"), idx, idx), st.tuples(st.just("redefine"), idx, idx)).map(list)
 hist_cases = st.fixed_dictionaries({"in_collection": st.booleans(), "ops": st.lists(hist_op, min_size=2, max_size=12)})
 
 
